@@ -169,6 +169,10 @@ pub fn garbage_alphabet() -> Vec<Op> {
         Op::Remove { base: r, path: format!("d/{}", "m".repeat(160)) },
         Op::CreateDir { base: r, path: "d/e".into(), keep: None },
         Op::Remount,
+        // the ROOT directory fills up as well (on FAT32 it grows by a cluster of the used medium)
+        Op::CreateFile { base: r, path: "m".repeat(160), keep: None },
+        Op::CreateFile { base: r, path: "w".repeat(255), keep: None },
+        Op::List { base: r, path: "".into() },
     ]
 }
 
